@@ -92,6 +92,11 @@ structure State where
   knownAssets : List String := []
   vals : List (String × Nat) := []                   -- validator key ↦ power (both formats)
   valCount : Nat := 0
+  -- oracle (privileged state of the sudo address)
+  pairs : List (String × Nat) := []                  -- currency pair ↦ id
+  numPairs : Nat := 0
+  nextPairId : Nat := 0
+  markets : Option (List (String × Nat)) := none     -- market (ticker) ↦ decimals; none = no market map
   -- ephemeral (cleared when the block is committed)
   blockFees : List (String × Nat) := []
   deposits : List Deposit := []
@@ -126,6 +131,9 @@ inductive Effect where
   | delFeeAsset (a : String)
   | valUpdate (key : String) (power : Nat)
   | registerAsset (a : String)
+  | addPair (name : String)
+  | delPair (name : String)
+  | setMarkets (ms : List (String × Nat))
   deriving DecidableEq, Repr
 
 def updBridge (s : State) (b : String) (f : BridgeAcct → BridgeAcct) : State :=
@@ -178,6 +186,11 @@ def applyEffect (s : State) : Effect → Option State
                               valCount := min (s.valCount + 1) U64_MAX }
   | .registerAsset a =>
     some (if a ∈ s.knownAssets then s else { s with knownAssets := a :: s.knownAssets })
+  | .addPair name =>
+    some { s with pairs := insert s.pairs name s.nextPairId, nextPairId := s.nextPairId + 1,
+                  numPairs := s.numPairs + 1 }
+  | .delPair name => some { s with pairs := erase s.pairs name, numPairs := s.numPairs - 1 }
+  | .setMarkets ms => some { s with markets := some ms }
 
 def applyEffects (s : State) : List Effect → Option State
   | [] => some s
@@ -205,6 +218,9 @@ inductive Action where
   | valUpdate (key : String) (power : Nat)
   | ics20 (amount : Nat) (denom : String) (chan : Nat) (feeAsset : String)
       (bridge : Option String) (id : String) (blk : Nat) (ret : String)
+  | pairsAdd (names : List String)
+  | pairsDel (names : List String)
+  | marketsChange (kind : Nat) (ms : List (String × Nat))   -- 0 create, 1 remove, otherwise update
   deriving DecidableEq, Repr
 
 def isBridge (s : State) (x : String) : Bool := (lookup s.bridges x).isSome
@@ -296,6 +312,12 @@ def mutableOk (s : State) (signer : String) : Action → Bool
         | some acct => acct.withdrawer = signer && (lookup s.wd (b, id)).isNone
         | none => false)
     | none => !isBridge s signer
+  | .pairsAdd names => s.sudo = signer && names.all fun n => (lookup s.pairs n).isNone
+  | .pairsDel names => s.sudo = signer && names.all fun n => (lookup s.pairs n).isSome
+  | .marketsChange kind ms =>
+    s.sudo = signer && match s.markets with
+      | none => false
+      | some cur => ms.all fun m => if kind = 0 then (lookup cur m.1).isNone else (lookup cur m.1).isSome
 
 def bridgeAsset (s : State) (b : String) : String :=
   match lookup s.bridges b with | some acct => acct.asset | none => ""
@@ -340,6 +362,13 @@ def actionEffects (s : State) (signer : String) (pos : Nat) : Action → List Ef
     wdEffects bridge id blk ++
     [.debit from_ denom amount] ++
     (if !hasLeading denom chan then [.escAdd chan denom amount] else [])
+  | .pairsAdd names => names.map .addPair
+  | .pairsDel names => names.map .delPair
+  | .marketsChange kind ms =>
+    let cur := s.markets.getD []
+    [.setMarkets (if kind = 0 then ms.foldl (fun acc m => insert acc m.1 m.2) cur
+                  else if kind = 1 then ms.foldl (fun acc m => erase acc m.1) cur
+                  else ms.foldl (fun acc m => insert acc m.1 m.2) cur)]
 
 /-- Fee kind, variable fee component and fee asset of the actions that pay a fee. -/
 def feeInfo : Action → Option (Kind × Nat × String)
@@ -384,7 +413,8 @@ structure Tx where
 /-- `Action::group` (1 = unbundleable sudo … 4 = bundleable general). -/
 def group : Action → Nat
   | .sudoChange _ | .ibcSudoChange _ => 1
-  | .relayerAdd _ | .relayerDel _ | .feeChange _ _ _ | .feeAssetAdd _ | .feeAssetDel _ => 2
+  | .relayerAdd _ | .relayerDel _ | .feeChange _ _ _ | .feeAssetAdd _ | .feeAssetDel _
+  | .pairsAdd _ | .pairsDel _ | .marketsChange _ _ => 2
   | .initBridge _ _ _ _ _ | .bridgeSudo _ _ _ _ _ => 3
   | _ => 4
 
